@@ -182,5 +182,22 @@ def register(gen, T):
         }
         for k, rx in dirfacts.items():
             out.append(f"def {k} : Bool := {'true' if re.search(rx, pif) else 'false'}\n")
+        # command-line defines (CompileArgs::defines): each is loaded as a file in front of the entry file
+        pp_sp = normws(fn_body(pre, "preprocess_initial_file"))
+        pp = pp_sp.replace(" ", "")
+        m = re.search(r'for\(name,value\)ininitial_defines\{letfile_id=file_loader\.source_manager\.add_file\(FileName\("([^"]*)"\.to_string\(\)\),format!\("([^"]*)"\),\);', pp)
+        if not m:
+            raise ExtractError("preprocess_initial_file: the loop that loads the command-line defines as files was not found")
+        fm = re.search(r'FileName\("[^"]*"\.to_string\(\)\), format!\("([^"]*)"\)', pp_sp)
+        if not fm or fm.group(1).replace(" ", "") != m.group(2):
+            raise ExtractError("preprocess_initial_file: contents of a command-line define file")
+        out.append(f"/-- name of the file a command-line define is loaded as -/\ndef defineFileName : String := {lean_str(m.group(1))}\n\n")
+        out.append(f"/-- its contents (a format string over the name and the value) -/\ndef defineFileFormat : String := {lean_str(fm.group(1))}\n\n")
+        deffacts = {
+            "defineTokensStartAtOffsetZero": r'letlocation=file_loader\.source_manager\.get_source_location_from_file_offset\(file_id,StreamLocation\(0\)\);letcontents=file_loader\.source_manager\.get_contents\(file_id\);lettokens=matchTokenStream::new\(contents,location\)',
+            "definesAreLoadedBeforeTheEntryFile": r'for\(name,value\)ininitial_defines\{.*\}preprocess_included_file\(&muttokens,file_loader,input_file,',
+        }
+        for k, rx in deffacts.items():
+            out.append(f"def {k} : Bool := {'true' if re.search(rx, pp) else 'false'}\n")
         out.append(T.footer("SourceMapTables"))
         return "".join(out)
